@@ -2073,6 +2073,12 @@ impl Connection {
         );
 
         self.process_decrypted_packet(now, remote, Some(packet_number), packet.into())?;
+        if self.state.is_closed() {
+            // The peer closed the connection in its very first packet. This packet bypasses
+            // `handle_packet`, so enter the draining period here.
+            self.close_common();
+            self.set_close_timer(now);
+        }
         if let Some(data) = remaining {
             self.handle_coalesced(now, remote, ecn, data);
         }
